@@ -36,6 +36,12 @@ struct Opts {
     dot: bool,
     unicode: bool,
     ban: Option<u8>,
+    /// swap_greed / ignore_whitespace / octal of the builder
+    sg: bool,
+    iw: bool,
+    oc: bool,
+    /// nest_limit of the builder (250 = default)
+    nl: u32,
 }
 
 impl Opts {
@@ -52,11 +58,15 @@ impl Opts {
             dot: false,
             unicode: true,
             ban: None,
+            sg: false,
+            iw: false,
+            oc: false,
+            nl: 250,
         }
     }
     fn show(&self) -> String {
         format!(
-            "ci={} cs={} w={} x={} F={} crlf={} lt={} ml={} dot={} u={} ban={}",
+            "ci={} cs={} w={} x={} F={} crlf={} lt={} ml={} dot={} u={} ban={} sg={} iw={} oc={} nl={}",
             self.ci as u8,
             self.cs as u8,
             self.word as u8,
@@ -71,7 +81,11 @@ impl Opts {
             self.ml as u8,
             self.dot as u8,
             self.unicode as u8,
-            self.ban.map_or("-".to_string(), |b| b.to_string())
+            self.ban.map_or("-".to_string(), |b| b.to_string()),
+            self.sg as u8,
+            self.iw as u8,
+            self.oc as u8,
+            self.nl
         )
     }
     fn parse(toks: &[&str]) -> Option<Opts> {
@@ -103,6 +117,10 @@ impl Opts {
                 "dot" => o.dot = b()?,
                 "u" => o.unicode = b()?,
                 "ban" => o.ban = if v == "-" { None } else { Some(v.parse().ok()?) },
+                "sg" => o.sg = b()?,
+                "iw" => o.iw = b()?,
+                "oc" => o.oc = b()?,
+                "nl" => o.nl = v.parse().ok()?,
                 _ => return None,
             }
         }
@@ -119,6 +137,10 @@ impl Opts {
             .dot_matches_new_line(self.dot)
             .unicode(self.unicode)
             .ban_byte(self.ban)
+            .swap_greed(self.sg)
+            .ignore_whitespace(self.iw)
+            .octal(self.oc)
+            .nest_limit(self.nl)
             .crlf(self.crlf);
         if let Some(lt) = self.lt {
             b.line_terminator(lt);
@@ -164,6 +186,10 @@ impl Opts {
         o.dot = rng.chance(1, 6);
         o.unicode = !rng.chance(1, 5);
         o.ban = if rng.chance(1, 6) { Some(*rng.pick(&[0u8, b'a', b'\n'])) } else { None };
+        o.sg = rng.chance(1, 8);
+        o.iw = rng.chance(1, 8);
+        o.oc = rng.chance(1, 10);
+        o.nl = if rng.chance(1, 10) { *rng.pick(&[0u32, 1, 3, 6]) } else { 250 };
         o
     }
 }
@@ -212,13 +238,14 @@ fn translate(pats: &[String], o: &Opts, case_insensitive: bool) -> Option<Hir> {
         .map(|p| if o.fixed { format!("(?:{})", regex_syntax::escape(p)) } else { format!("(?:{})", p) })
         .collect();
     let pattern = alts.join("|");
-    let ast = regex_syntax::ast::parse::ParserBuilder::new().nest_limit(250).build().parse(&pattern).ok()?;
+    let ast = regex_syntax::ast::parse::ParserBuilder::new().nest_limit(o.nl).octal(o.oc).ignore_whitespace(o.iw).build().parse(&pattern).ok()?;
     regex_syntax::hir::translate::TranslatorBuilder::new()
         .utf8(false)
         .case_insensitive(case_insensitive)
         .multi_line(o.ml)
         .dot_matches_new_line(o.dot)
         .crlf(o.crlf)
+        .swap_greed(o.sg)
         .unicode(o.unicode)
         .build()
         .translate(&pattern, &ast)
@@ -878,7 +905,7 @@ fn config_checks(cx: &mut Ctx, c: &Case, built: &Option<Built>, err: &Option<Str
                 return;
             }
         };
-        let ast = match regex_syntax::ast::parse::ParserBuilder::new().nest_limit(250).build().parse(&text) {
+        let ast = match regex_syntax::ast::parse::ParserBuilder::new().nest_limit(o.nl).octal(o.oc).ignore_whitespace(o.iw).build().parse(&text) {
             Ok(a) => a,
             Err(_) => {
                 cx.rep.branch("cfg:parse-error");
@@ -904,6 +931,7 @@ fn config_checks(cx: &mut Ctx, c: &Case, built: &Option<Built>, err: &Option<Str
             .multi_line(o.ml)
             .dot_matches_new_line(o.dot)
             .crlf(o.crlf)
+            .swap_greed(o.sg)
             .unicode(o.unicode)
             .build()
             .translate(&text, &ast);
@@ -1062,7 +1090,7 @@ struct Case {
 }
 
 fn case_line(o: &Opts, pats: &[String], hays: &[Vec<u8>]) -> String {
-    let ps: Vec<String> = pats.iter().map(|p| hex(p.as_bytes())).collect();
+    let ps: Vec<String> = if pats.is_empty() { vec!["~".to_string()] } else { pats.iter().map(|p| hex(p.as_bytes())).collect() };
     let hs: Vec<String> = hays.iter().map(|h| hex(h)).collect();
     format!("pat {} pats={} hays={}", o.show(), ps.join(","), if hs.is_empty() { "-".to_string() } else { hs.join(";") })
 }
@@ -1077,8 +1105,10 @@ fn parse_case(line: &str) -> Option<Case> {
     let pats = toks[n - 2].strip_prefix("pats=")?;
     let hays = toks[n - 1].strip_prefix("hays=")?;
     let mut ps = vec![];
-    for p in pats.split(',') {
-        ps.push(String::from_utf8(unhex(p)?).ok()?);
+    if pats != "~" {
+        for p in pats.split(',') {
+            ps.push(String::from_utf8(unhex(p)?).ok()?);
+        }
     }
     let mut hs = vec![];
     if hays != "-" {
@@ -1199,6 +1229,8 @@ fn run_case_inner(line: &str, drv: &mut Driver, rep: &mut Report, thorough: bool
 const ATOMS: &[&str] = &[
     "a", "b", "ab", ".", r"\w", r"\s", "^", "$", r"\b", r"\B", "[a\\n]", "[^a]", r"\r", "é", r"\n", r"[\r\n]", r"\d", r"(?i:k)", r"\A", r"\z",
     "[a-c]", r"\pL", r"(?-u:\xff)", r"\x00", "foo",
+    r"\b{start}", r"\b{end}", r"\b{start-half}", r"\b{end-half}", r"(?-u:\b)", r"(?-u:\B)", r"(?-m:^)", r"(?-m:$)", r"(?R:$)", r"(?R:^)",
+    r"(?i:[a-zé])", r"(?-u:[^a])", r"(?-u:\W)", r"(?s:.)", r"(?U:a+)", "", r"((a)|b)",
 ];
 const UNARY: &[&str] = &["*", "+", "?", "{2}", "{1,2}", "*?", "{2,}", "{0}", "{3,5}", "+?", "{12}"];
 
@@ -1307,7 +1339,7 @@ fn main() {
             let pats = enumerate(size, &mut memo);
             let total = pats.len();
             // quick tier: every pattern of size ≤ 2, a fixed stride of size 3
-            let stride = if args.thorough { if size == 4 { 13 } else { 1 } } else if size == 3 { 9 } else { 1 };
+            let stride = if args.thorough { if size == 4 { 45 } else { 1 } } else if size == 3 { 15 } else { 1 };
             for (i, p) in pats.iter().enumerate() {
                 if i % stride != 0 {
                     continue;
@@ -1418,6 +1450,58 @@ fn main() {
                     let line = case_line(&o, &[p.clone()], &[wit.clone(), buf]);
                     run_case(&line, &mut drv, &mut rep, args.thorough);
                     rep.branch("stream:extractor-limits");
+                }
+            }
+        }
+        // (c4) constructs and option combinations the other streams reach rarely or never: every look-around
+        // kind written explicitly (also non-multi-line anchors, CRLF-aware anchors, half boundaries), inline flags,
+        // case-insensitive Unicode classes, (?-u) byte classes, large counted repetitions, empty alternation
+        // branches, nested / named captures, non-UTF-8 bytes; builder options swap_greed / ignore_whitespace / octal
+        {
+            let pats: &[&str] = &[
+                r"\Afoo", r"bar\z", r"\A\z", r"(?-m:^)a|b(?-m:$)", r"(?m:^)a(?m:$)", r"(?R)^a$", r"(?R)\r$", r"(?R:^$)",
+                r"\bfoo\b", r"\Bo\B", r"(?-u)\bfoo\B", r"\b{start}foo\b{end}", r"\b{start-half}é\b{end-half}", r"(?-u:\b{start-half})a(?-u:\b{end-half})",
+                r"(?-u:\b{start})x(?-u:\b{end})", r"a\b{end}|\b{start}b",
+                r"(?i)straße", r"(?i)[k-s]", r"(?i:\p{Greek})+x", r"(?i)ǆ|ǅ", r"(?i-u)[a-f]\xE9",
+                r"(?-u:[\x80-\xff])+", r"(?-u:[^\n])\xff", r"(?-u:\W\w)", r"(?-u)\xC3\xA9", r"(?-u:\S+)é",
+                r"a{100}", r"[ab]{50,60}c", r"(?:ab){0,100}x", r"(?:a{30}){30}", r"\pL{200,}", r"x{0,1000}y", r"(?:a|bc){64}d",
+                r"a|", r"|a", r"(|a)b", r"a||b", r"(?:|)", r"(a|)+c", r"x(?:|y|)z",
+                r"((a)(b))", r"(?P<n>(x)|y)+", r"(((a)))", r"(a(b(c)?)?)d", r"(?P<first>\w+)\s(?P<last>\w+)",
+                r"(?s).\n?x", r"(?s:a.b)", r"(?x) a b # c", r"(?x: [a b] \  c )", r"(?U)a+b", r"(?U:a*?)b", r"(?sm)^.$", r"(?ms)$.^", r"(?m)a$\s^b",
+                r"(?-u:\xff)\x00", r"(?-u:\xfe|\xff)+", r"\x{10FFFF}\x{0}", r"a b", r"\101\60", r"a\ b",
+            ];
+            let grid: Vec<Opts> = vec![
+                Opts::default_rg(),
+                Opts { crlf: true, lt: None, ..Opts::default_rg() },
+                Opts { crlf: true, lt: Some(Some(0)), ..Opts::default_rg() },
+                Opts { lt: Some(Some(0)), ban: Some(0), ..Opts::default_rg() },
+                Opts { lt: Some(None), dot: true, ..Opts::default_rg() },
+                Opts { ml: false, ..Opts::default_rg() },
+                Opts { word: true, crlf: true, lt: None, ..Opts::default_rg() },
+                Opts { whole: true, unicode: false, ..Opts::default_rg() },
+                Opts { ci: true, word: true, ..Opts::default_rg() },
+                Opts { sg: true, ..Opts::default_rg() },
+                Opts { iw: true, ..Opts::default_rg() },
+                Opts { oc: true, iw: true, sg: true, unicode: false, ..Opts::default_rg() },
+                Opts { fixed: true, iw: true, ..Opts::default_rg() },
+                Opts { nl: 2, ..Opts::default_rg() },
+            ];
+            // no pattern at all: `build_many(&[])` is `Hir::fail()`
+            for o in grid.iter().take(4) {
+                let line = case_line(o, &[], &[b"a\n".to_vec()]);
+                run_case(&line, &mut drv, &mut rep, args.thorough);
+                rep.branch("stream:constructs-and-options");
+            }
+            for (i, p) in pats.iter().enumerate() {
+                for (j, o) in grid.iter().enumerate() {
+                    // quick tier: a diagonal slice of the grid plus the default; thorough: the full grid
+                    if !args.thorough && j != 0 && (i + j) % 4 != 0 {
+                        continue;
+                    }
+                    let pl = if (i + j) % 5 == 0 { vec![p.to_string(), "quux".to_string()] } else { vec![p.to_string()] };
+                    let line = case_line(o, &pl, &[]);
+                    run_case(&line, &mut drv, &mut rep, args.thorough);
+                    rep.branch("stream:constructs-and-options");
                 }
             }
         }
